@@ -30,8 +30,10 @@ ASSUMPTIONS = ["with an entity_id the label is optional (update); without one it
 ENT = xf.ENT
 DATASETS = [("trees", True), ("my_list", True), ("a-b", True), ("Ünï", True), ("t1", True), ("__reserved", False), ("with.dot", False), ("1start", False),
             ("has space", False), ("_ok", True), ("x:y", True), ("a/b", False)]
-PROPS = [("prop_a", True), ("a-b", True), ("name", False), ("Label", False), ("__x", False), ("1x", False), ("has space", False), ("_p", True), ("NAME", False), ("ok.dot", True)]
-SHAPES = ["literal", "ref", "ref-in-group"]
+PROPS = [("prop_a", True), ("a-b", True), ("name", False), ("Label", False), ("__x", False), ("1x", False), ("has space", False), ("_p", True), ("NAME", False), ("ok.dot", True),
+         # property names that happen to be yes/no words: names, not truth values
+         ("yes", True), ("No", True), ("TRUE", True), ("false", True), ("true", True)]
+SHAPES = ["literal", "ref", "ref-in-group", "smart-quotes"]
 PLACEMENTS = ["none", "top", "group", "repeat", "on-group", "repeat>group", "group>repeat", "group>group", "on-repeat", "repeat>repeat>group"]
 
 
@@ -41,6 +43,10 @@ def plan(tier, seed):
 
 
 def expr(shape, what):
+    if shape == "smart-quotes":
+        # typographic quotes as a word processor or a spreadsheet's autocorrect leaves them: straightened like on every other sheet
+        return {"entity_id": "\u2018abc-123\u2019", "create_if": "\u201cy\u201d = \u201cy\u201d", "update_if": "1 = 1 or \u2018a\u2019 = \u2018b\u2019",
+                "label": "concat(\u2018L\u2019, \u201cx\u201d)"}[what]
     if shape == "literal":
         return {"entity_id": "'abc-123'", "create_if": "true()", "update_if": "1 = 1", "label": "concat('L', 'x')"}[what]
     ref = "${q1}" if shape == "ref" else "${gq}"
@@ -116,6 +122,8 @@ def ref_paths(shape):
 
 def subst(e, shape):
     """Expected attribute value after reference substitution."""
+    if shape == "smart-quotes":
+        return e.replace("\u2018", "'").replace("\u2019", "'").replace("\u201c", '"').replace("\u201d", '"')
     p = ref_paths(shape)
     if p is None:
         return e
